@@ -83,6 +83,10 @@ pub enum GOp {
     Complete,
     CompleteWith(u32),
     Drop,
+    /// `complete()` / `complete_with(..)` whose receiver (the emitter, or the completion) panics after it has seen the
+    /// span; the panic is caught right around the call. The guard went into the call by value: it is dropped while the
+    /// panic unwinds, and must not complete a second time
+    CompleteReceiverPanics(Option<u32>),
 }
 
 /// incoming ids in effect: (trace id hex, span id hex), either may be absent
@@ -213,6 +217,8 @@ pub struct Log {
     pub clock_pos: usize,
     pub rng: u64,
     pub cancelled_strands: BTreeSet<u32>,
+    /// the receiver of the completion of this span panics once it has recorded it
+    pub receiver_panics_for: Option<u32>,
 }
 
 pub type Shared = Arc<Mutex<Log>>;
@@ -284,7 +290,14 @@ fn record_event(log: &Shared, evt: &emit::Event<impl Props>, via: Option<u32>) {
         rec.name,
         rec.via_completion
     ));
+    let blow = rec.is_span && rec.sid.is_some() && l.receiver_panics_for == rec.sid && !std::thread::panicking();
     l.recs.push(rec);
+    if blow {
+        l.receiver_panics_for = None;
+        *l.probes.entry("completion_receiver_panicked").or_insert(0) += 1;
+        drop(l);
+        panic::panic_any(Injected("completion_receiver"));
+    }
 }
 
 impl emit::Emitter for Recorder {
@@ -814,6 +827,43 @@ fn run_manual(w: &Arc<World>, st: &mut Strand, sid: u32, enabled: bool, ops: &[G
                         m_done = true;
                     }
                     drop(g);
+                }
+                GOp::CompleteReceiverPanics(with) => {
+                    let want = enabled && m_started && !m_done;
+                    if want {
+                        expect_records += 1;
+                        m_done = true;
+                        if let Some(tag) = with {
+                            m_tag = *tag;
+                        }
+                    }
+                    lg(&log).receiver_panics_for = Some(sid);
+                    let r = panic::catch_unwind(AssertUnwindSafe(|| match with {
+                        Some(tag) => g.complete_with(RecCompletion {
+                            log: log.clone(),
+                            tag: *tag,
+                            ctxt: ctxt.clone(),
+                        }),
+                        None => g.complete(),
+                    }));
+                    lg(&log).receiver_panics_for = None;
+                    match r {
+                        Ok(got) => {
+                            if want || got {
+                                lg(&log).violations.push((
+                                    "C05",
+                                    "complete_return_value",
+                                    format!("{name}: manual span {sid}: an explicit completion returned {got} without its receiver having seen the span (enabled={enabled}, started={m_started}, already completed={})", !want && m_done),
+                                ));
+                            }
+                        }
+                        Err(_) => {
+                            let msg = crate::core::take_last_panic().unwrap_or_default();
+                            if !want || !msg.contains("<injected:") {
+                                lg(&log).violations.push(("C05", "unexpected_panic", format!("{name}: manual span {sid}: completion panicked: {msg}")));
+                            }
+                        }
+                    }
                 }
             }
             if let Some(g) = guard.as_ref() {
@@ -1461,10 +1511,11 @@ fn gen_ops(ch: &mut Choices) -> Vec<GOp> {
         };
         ops.push(op);
     }
-    match ch.choose(4) {
-        0 => ops.push(GOp::Drop),
-        1 => ops.push(GOp::Complete),
-        2 => ops.push(GOp::CompleteWith(10 + ch.choose(5))),
+    match ch.choose(9) {
+        0 | 1 => ops.push(GOp::Drop),
+        2 | 3 => ops.push(GOp::Complete),
+        4 | 5 => ops.push(GOp::CompleteWith(10 + ch.choose(5))),
+        6 => ops.push(GOp::CompleteReceiverPanics(if ch.chance(1, 2) { Some(10 + ch.choose(5)) } else { None })),
         _ => {}
     }
     ops
